@@ -38,6 +38,7 @@ def run(ctx):
     check_handshake(ctx, prog)
     check_clients(ctx, prog)
     check_zero_read(ctx, prog)
+    check_frame_kept(ctx, prog, recv)
     import C16
     C16.check_partial(ctx, prog, rule='C11.partial', files=False)
     return __doc__.split('\n\n', 1)[1]
@@ -616,3 +617,57 @@ def check_zero_read(ctx, prog):
             else:
                 ctx.ok('C11.zeroread', f['pq'], role, fwhere(f, e['l']), 'guards exclude a length of 0')
     ctx.floor('C11.zeroread', n, 1)
+
+
+# ------------------------------------------------------------------ C11.kept
+
+def check_frame_kept(ctx, prog, recv):
+    """C11.kept: a frame whose payload has been read is processed.  Between the payload read (the Socket read of a computed
+    length) and the opcode dispatch no path may leave receive() on a condition that does not come from that read itself: a
+    fresh query of the connection state there (`closed()`, `disconnected()`) is also true when the peer merely closed *after*
+    sending the frame, and the complete message is dropped.  Decided on the CFG: return nodes reachable from the read without
+    passing the dispatch, whose controlling conditions do not mention the read or the variable holding its result."""
+    import cfg as cfgm
+    g = cfgm.CFG(recv)
+    reads = [n_ for n_ in g.nodes if n_.kind == 'ev' and n_.e is not None and n_.e.get('k') == 'call' and (n_.e.get('pq') or '') in ('asl::Socket::read', 'asl::Socket_::read') and
+             len(n_.e.get('a', [])) == 2 and const_val(n_.e['a'][1]) is None]
+    role = 'receive:a frame whose payload was read is processed'
+    if not reads:
+        ctx.undecided('C11.kept', recv['pq'], role, fwhere(recv), 'payload read not found')
+        return
+    rd = reads[-1]
+    holder = None
+    for w in fn_exprs(recv):
+        if w.get('k') == 'bin' and w.get('op') == '=' and strip(w['y']) is rd.e and strip_lv(w['x']).get('k') == 'var':
+            holder = strip_lv(w['x'])['id']
+    for s_ in ir.walk_stmts(recv['body']):
+        if s_.get('k') == 'decl':
+            for v in s_['vars']:
+                if v.get('init') is not None and strip(v['init']) is rd.e:
+                    holder = v['id']
+
+    def is_dispatch(n_):
+        if n_.kind == 'sw':
+            return True
+        e = n_.e or {}
+        return n_.kind == 'ev' and e.get('k') == 'call' and (e.get('pq') or '').split('::')[-1] == 'append' and e.get('obj') is not None and strip_lv(e['obj']).get('k') == 'var'
+    # forward search from the read, stopping at the dispatch; remember the branch conditions taken on the way
+    bad = None
+    seen = set()
+    work = [(m_, ()) for m_, _ in rd.succ]
+    while work and bad is None:
+        n_, conds = work.pop()
+        if n_.id in seen or is_dispatch(n_):
+            continue
+        seen.add(n_.id)
+        if n_.kind == 'ret' or (n_.kind == 'ev' and False):
+            from_read = any(any(w is rd.e or (w.get('k') == 'var' and w.get('id') == holder) for w in walk_expr(c)) for c in conds)
+            if conds and not from_read:
+                bad = (n_.line, conds[-1])
+            continue
+        for m_, lab in n_.succ:
+            work.append((m_, conds + ((n_.e,) if n_.kind == 'br' and n_.e is not None and lab in (True, False) else ())))
+    ctx.evaluations += len(seen)
+    ctx.check(bad is None, 'C11.kept', recv['pq'], role, fwhere(recv, bad[0] if bad else None), 'no exit between the payload read and the opcode dispatch other than on the result of the read',
+              'receive() can return at line %s, after the payload was read, on `%s`: this is also true when the peer closed right after sending the frame, so a message that arrived completely is dropped (or a fragmented message loses its last fragment)' % (
+                  bad[0] if bad else '', pe(bad[1])[:60] if bad else ''))
